@@ -150,9 +150,30 @@ func run(raw json.RawMessage) (common.Case, error) {
 	if in.Abort {
 		strategy = int64(storepb.PartialResponseStrategy_ABORT)
 	}
+	// ---- the same stores through the Thanos querier's Select (partial response = WARN strategy) ----
+	qPartial := !in.Abort
+	qr := pu.RunQuerier(in, timeout, qPartial)
+	oQ := common.None
+	var qws []string
+	if qr.Err == nil {
+		seenW := map[string]bool{}
+		for _, w := range qr.Warns {
+			if cw := canon(w); !seenW[cw] {
+				seenW[cw] = true
+				qws = append(qws, cw)
+			}
+		}
+		sort.Strings(qws)
+		var ls []string
+		for _, l := range qr.Labels {
+			ls = append(ls, pu.CoqLabelsP(l))
+		}
+		oQ = common.Some(common.Pair(common.List(ls), pu.CoqStrList(qws)))
+	}
 	c.Coq = common.App("CFail", common.Bool(in.Lazy), common.Nat(in.Buf), pu.CoqStrList(in.WRL), common.Bool(in.Disabled), common.Z(strategy),
-		common.Nat(int(in.Batch)), common.List(scripts), oFrames, pu.CoqStrList(ws))
-	obs := map[string]any{"ok": res.Err == nil, "warnings": ws, "frames": len(res.Frames)}
+		common.Nat(int(in.Batch)), common.List(scripts), oFrames, pu.CoqStrList(ws), common.Bool(qPartial), oQ)
+	obs := map[string]any{"ok": res.Err == nil, "warnings": ws, "frames": len(res.Frames),
+		"querier_ok": qr.Err == nil, "querier_warnings": qws, "querier_series": len(qr.Labels)}
 	c.Obs = obs
 
 	// ---- Go-side predicate (search aid) ----
@@ -212,6 +233,30 @@ func run(raw json.RawMessage) (common.Case, error) {
 						c.GoPred = fmt.Sprintf("warn strategy: series %v of non-failing store %s is missing", ls, s.Name)
 						c.Sig = "warn-lost-series"
 					}
+				}
+			}
+		}
+	}
+	if c.GoPred == "" {
+		switch {
+		case !qPartial && (len(failing) > 0 || storeWarns) && qr.Err == nil:
+			c.GoPred = "querier, partial response off: a store failed (or warned) but Select succeeded"
+			c.Sig = "querier-abort-succeeded"
+		case !qPartial && len(failing) == 0 && !storeWarns && qr.Err != nil:
+			c.GoPred = "querier, partial response off: no store failed but Select failed"
+			c.Sig = "querier-abort-failed-without-failure"
+		case qPartial && qr.Err != nil:
+			c.GoPred = "querier, partial response on: Select failed"
+			c.Sig = "querier-warn-failed"
+		case qPartial:
+			have := map[string]bool{}
+			for _, w := range qws {
+				have[w] = true
+			}
+			for _, n := range failing {
+				if !have[failToken(n)] {
+					c.GoPred = "querier, partial response on: no annotation for failed store " + n
+					c.Sig = "querier-warn-missing-warning"
 				}
 			}
 		}
